@@ -3,6 +3,7 @@ import PPProofs.Lemmas.PRHeapDeepMemo
 import PPProofs.Lemmas.PRHeapDeepMemoRel
 import PPProofs.Lemmas.PRHeapDeepMemoNames
 import PPProofs.Lemmas.PRHeapDeepViews
+import PPProofs.Lemmas.PRHeapDeepLoop
 /-!
 # C11 — `ParseResults.deepcopy()` of NESTED groups, at every depth (heap model)
 
@@ -35,6 +36,12 @@ and both views (`copyModule_deep_views`).
 namespace PP.PRHeap
 
 variable {α : Type}
+
+/-- **(1) the model is the loop as written**: `deepcopyLoop` — results.py:591-606 statement by statement,
+    `ret._toklist[i] = obj.deepcopy()` stored after every recursive call — is `deepcopyN` (rebuilt list stored once) on
+    every well-formed token tree, at every depth.  So every theorem below is a theorem about `deepcopyLoop`. -/
+theorem deepcopyLoop_eq (f : Nat) (h : Heap α) (o : Nat) (hw : TWF h f o) : deepcopyLoop f h o = deepcopyN f h o :=
+  deepcopyLoop_eq_N f h o hw
 
 /-- **(2) `deepcopy()`: the copy's token tree is fresh at every depth and shows the original's nested list.** -/
 theorem deepcopy_tokens_fresh (f : Nat) (h : Heap α) (o : Nat) (hw : TWF h f o) :
@@ -391,6 +398,9 @@ example : dumpN 3 (copyModuleDeep 2 exHeap 5).1 15 = dumpN 3 exHeap 5 ∧
 
 /-- three groups nested in each other (depth 2), `g` names the innermost in its parent -/
 example : TWF (chainHeap 2) 2 8 := chain_twf 2 2 (Nat.le_refl _)
+
+example : deepcopyLoop 2 (chainHeap 2) 8 = deepcopyN 2 (chainHeap 2) 8 :=
+  deepcopyLoop_eq 2 (chainHeap 2) 8 (chain_twf 2 2 (Nat.le_refl _))
 
 /-- the deep copy (object 12) shows `[[['a']]]`; its groups are the new objects 12, 15, 18 -/
 example : asListN 5 (deepcopyN 2 (chainHeap 2) 8).1 (deepcopyN 2 (chainHeap 2) 8).2
